@@ -380,7 +380,7 @@ func r3C11(c *Ctx) {
 
 func r3C12(c *Ctx) {
 	p := c.Prog
-	c.Rule("R12.7", "a revision matches only through a non-empty revision label", 2)
+	c.Rule("R12.7", "a revision matches only through a non-empty revision label", 1)
 	fn := p.Func("pkg/util.IsConsistentWithRevision")
 	if fn == nil {
 		c.Unresolved("R12.7", "IsConsistentWithRevision")
